@@ -122,6 +122,7 @@ def parse_trace(trace):
     out = []
     if not trace:
         return out
+    trace = trace.split(' ## ')[0]
     for part in trace.split(' | '):
         toks = part.split(' ')
         out.append(OpTrace(toks[0], toks[1:]))
@@ -161,3 +162,11 @@ def inbound_of(case, optraces):
             if e.startswith('R:') and e not in ('R:eof',) and not e.startswith('R:e:'):
                 buf += bytes.fromhex(e[2:])
     return bytes(buf)
+
+
+def alloc_stats(trace):
+    """(largest single allocation request, peak live bytes) inside read calls, from the ' ## A:x:y' suffix of an S trace"""
+    if ' ## A:' not in trace:
+        return None
+    p = trace.split(' ## A:')[1].split(':')
+    return int(p[0]), int(p[1])
